@@ -313,6 +313,10 @@ def run(ctx):
     check_terminator_flag(ctx)
     ctx.rule("R11", "the look-ahead of a frame loop leaves the input unchanged (evaluated on a model LineIterator)", "lines put back in the wrong order, not at all or twice: the frame parser reads the count where the title is, a legal frame is rejected or mis-read")
     check_lookahead_transparency(ctx, "R11")
+    ctx.rule("R12", "a PDB CONECT record that names an atom outside the frame is an error, not a silently dropped bond", "a frame whose bond table refers to a missing atom loads as a complete frame with fewer bonds")
+    from .c03 import check_pdb_conect_lookup
+
+    check_pdb_conect_lookup(ctx, "R12")
     check_sequence_end(ctx, "R7")
 
     # dump side of R6
